@@ -4,3 +4,4 @@ import ZeepProofs.C15
 import ZeepProofs.C10
 import ZeepProofs.C06
 import ZeepProofs.C16
+import ZeepProofs.C17
